@@ -73,6 +73,20 @@ def report(prop, tier, seed, spec_, results, skipped, known, t0, args):
       else:
         new.append((r, v))
 
+  # statistical clauses that only exist over the whole batch of runs
+  batch_viol = []
+  for engine in sorted({e for e, _, _, _ in spec_["plans"]}):
+    eng = runner.engine_module(engine)
+    if hasattr(eng, "cross_run"):
+      for v in eng.cross_run(prop, results):
+        batch_viol.append(({"engine": engine, "profile": "batch",
+                            "run_index": -2, "plan": {
+                                "batch": {"property": prop, "tier": tier,
+                                          "verif_seed": seed,
+                                          "runs": args.runs,
+                                          "profile": args.profile}}}, v))
+  new += batch_viol
+
   for kid in sorted(known_hits):
     k, r, v = known_hits[kid]
     print("KNOWN-FINDING: property=%s id=%s %s (e.g. run %s/%s step %s: %s)" %
@@ -99,7 +113,7 @@ def report(prop, tier, seed, spec_, results, skipped, known, t0, args):
     doc = _replay_doc(prop, seed, r, v, plan, args)
     path = core.write_replay(prop, seed, r["run_index"], doc,
                              suffix="-" + _slug(key))
-    if not args.no_minimise:
+    if not args.no_minimise and "batch" not in plan:
       deadline = time.time() + (120 if tier == "quick" else 600)
       try:
         small = eng.minimise(plan, v, deadline)
@@ -173,7 +187,16 @@ def replay(doc, args):
   eng = runner.engine_module(doc["engine"])
   prop = doc["property"]
   want = doc["violation"]["key"]
-  _, viols, _ = eng.execute(doc["plan"])
+  if "batch" in doc["plan"]:
+    b = doc["plan"]["batch"]
+
+    class _A:
+      runs, profile = b["runs"], b["profile"]
+    sp = spec(prop, b["tier"], b["verif_seed"], _A)
+    results, _ = runner.run_jobs(sp["jobs"], os.cpu_count() or 1, 1e9)
+    viols = eng.cross_run(prop, results)
+  else:
+    _, viols, _ = eng.execute(doc["plan"])
   same = [v for v in viols if v["property"] == prop and v["key"] == want]
   for v in viols:
     if args.verbose:
